@@ -745,7 +745,7 @@ def run_check(chk, argv):
     #          neither may change anything the model (= the ideal object) predicts
     if model_exe and cases and getattr(chk, 'env_passes', True):
         nmax = 2500 if tier == 'quick' else 12000
-        step_e = max(1, len(cases) // nmax)
+        step_e = 1 if os.environ.get('VERIF_ENV_ALL') else max(1, len(cases) // nmax)     # VERIF_ENV_ALL=1: every case (a sweep for by-hand use)
         idx = sorted(set(list(range(0, min(ncorpus, len(cases)))) + list(range(0, len(cases), step_e))))
         sub = [cases[k] for k in idx]
         work = os.path.join(BUILD, 'work', chk.id.lower())
